@@ -101,6 +101,7 @@ type inventory struct {
 	PkgVars     []string       `json:"package_vars"`
 	Rewrites    map[string]int `json:"rewrites"`
 	Warnings    []string       `json:"warnings"`
+	Unmodelled  []string       `json:"unmodelled_sync"`
 	Unsupported []string       `json:"unsupported"`
 }
 
@@ -487,6 +488,11 @@ func (m *loader) rewriteCalls(pi *pkgInfo, f *ast.File) {
 			case strings.HasSuffix(rt, "sync.Once") && fn.Name() == "Do":
 				w = "OnceDo"
 			}
+			if w == "" && (strings.HasSuffix(rt, "sync.Map") || strings.HasSuffix(rt, "sync.Pool")) {
+				// never block; internally synchronised; the own HB monitor does not model their edges
+				inv.Unmodelled = append(inv.Unmodelled, m.rel(call.Pos())+": "+rt+"."+fn.Name())
+				return true
+			}
 			if w == "" {
 				m.unsupported(call.Pos(), "sync: "+rt+"."+fn.Name())
 				return true
@@ -506,7 +512,10 @@ func (m *loader) rewriteCalls(pi *pkgInfo, f *ast.File) {
 			default:
 				inv.Warnings = append(inv.Warnings, m.rel(call.Pos())+": time."+fn.Name()+" (wall clock read is not owned by the simulator)")
 			}
-		case "sync/atomic", "os/exec", "net", "net/http", "os/signal":
+		case "sync/atomic":
+			// single indivisible operations: nothing to own, but their edges are not modelled by the own monitor
+			inv.Unmodelled = append(inv.Unmodelled, m.rel(call.Pos())+": atomic."+fn.Name())
+		case "os/exec", "net", "net/http", "os/signal":
 			m.unsupported(call.Pos(), fn.Pkg().Path()+"."+fn.Name())
 		}
 		return true
@@ -518,6 +527,12 @@ func (m *loader) rewriteCalls(pi *pkgInfo, f *ast.File) {
 			return true
 		}
 		if fn, ok := pi.info.Uses[sel.Sel].(*types.Func); ok && fn.Pkg() != nil && fn.Pkg().Path() == "sync" {
+			if sig, ok := fn.Type().(*types.Signature); ok && sig.Recv() != nil {
+				rt := sig.Recv().Type().String()
+				if strings.HasSuffix(rt, "sync.Map") || strings.HasSuffix(rt, "sync.Pool") {
+					return true
+				}
+			}
 			m.unsupported(sel.Pos(), "unrewritten use of sync."+fn.Name())
 		}
 		return true
@@ -627,7 +642,7 @@ func main() {
 			for _, im := range f.Imports {
 				ip, _ := strconv.Unquote(im.Path.Value)
 				switch ip {
-				case "unsafe", "sync/atomic", "os/exec", "net", "net/http", "os/signal", "C":
+				case "unsafe", "os/exec", "net", "net/http", "os/signal", "C":
 					m.unsupported(im.Pos(), "import "+ip)
 				}
 			}
